@@ -550,9 +550,11 @@ func sprint(fr *frame, args []value, ln bool) value {
 	wasStr := false
 	for i, arg := range args {
 		itf := arg.(iface)
-		_, isStr := itf.v.(string)
-		if _, ok := itf.v.(symstr); ok {
-			isStr = true
+		isStr := false
+		if itf.t != nil && itf.t != errorType {
+			if b, ok := itf.t.Underlying().(*types.Basic); ok && b.Kind() == types.String {
+				isStr = true
+			}
 		}
 		if i > 0 && (ln || (!wasStr && !isStr)) {
 			sb.WriteByte(' ')
@@ -861,8 +863,12 @@ func ext۰strconv۰ParseFloat(fr *frame, args []value) value {
 	return tuple{f, strconvErr(fr, err)}
 }
 
+func fromStrconv(fr *frame) bool {
+	return fr.caller != nil && fr.caller.fn.Pkg != nil && fr.caller.fn.Pkg.Pkg.Path() == "strconv"
+}
+
 func ext۰strconv۰ParseInt(fr *frame, args []value) value {
-	if s, ok := args[0].(string); ok && allConcrete(args[1], args[2]) {
+	if s, ok := args[0].(string); ok && allConcrete(args[1], args[2]) && !fromStrconv(fr) {
 		v, err := strconv.ParseInt(s, int(asInt64(args[1])), int(asInt64(args[2])))
 		return tuple{v, strconvErr(fr, err)}
 	}
@@ -870,7 +876,7 @@ func ext۰strconv۰ParseInt(fr *frame, args []value) value {
 }
 
 func ext۰strconv۰ParseUint(fr *frame, args []value) value {
-	if s, ok := args[0].(string); ok && allConcrete(args[1], args[2]) {
+	if s, ok := args[0].(string); ok && allConcrete(args[1], args[2]) && !fromStrconv(fr) {
 		v, err := strconv.ParseUint(s, int(asInt64(args[1])), int(asInt64(args[2])))
 		return tuple{v, strconvErr(fr, err)}
 	}
